@@ -250,6 +250,9 @@ func devCatalogue() []dev {
 		{"curve", "curve=c[p256,x]/s[x,p384]", func(c, s *world.Cfg) {
 			c.Curves, s.Curves = []elliptic.Curve{elliptic.P256, elliptic.X25519}, []elliptic.Curve{elliptic.X25519, elliptic.P384}
 		}},
+		{"curve", "curve=c[p384]/s[x,p384]", func(c, s *world.Cfg) { // the server's first group is not the client's; a common one exists
+			c.Curves, s.Curves = []elliptic.Curve{elliptic.P384}, []elliptic.Curve{elliptic.X25519, elliptic.P384}
+		}},
 		{"hv", "helloverify=off", func(c, s *world.Cfg) { s.SkipHelloVerify = true }},
 	}
 }
@@ -263,6 +266,9 @@ func bases(thorough bool) []base {
 		{"12-rsa", world.Cfg{}, world.Cfg{Cred: "rsa"}},
 		{"12-ed25519", world.Cfg{}, world.Cfg{Cred: "ed25519"}},
 		{"12-psk", pskC, pskC},
+		// a suite list that needs a group for its first entry and none for its last
+		{"12-ecdhepsk+pskccm8", world.Cfg{Cred: "psk", PSK: pskKey, Suites: []dtls.CipherSuiteID{sEPSKCBC, dtls.TLS_PSK_WITH_AES_128_CCM_8}},
+			world.Cfg{Cred: "psk", PSK: pskKey, Suites: []dtls.CipherSuiteID{sEPSKCBC, dtls.TLS_PSK_WITH_AES_128_CCM_8}}},
 		{"13-ecdsa", v13(world.Cfg{}), v13(world.Cfg{Cred: "ecdsa"})},
 		{"13-rsa", v13(world.Cfg{}), v13(world.Cfg{Cred: "rsa"})},
 		{"cdual-s12", dual(world.Cfg{}), world.Cfg{Cred: "ecdsa"}},
